@@ -27,7 +27,7 @@ RULE = (
 ASSUMPTIONS = [
     "bounded to the listed instance families and to query sequences of length <= 2 (3 for memoised queries in thorough) per state",
     "available_machines/available_jobs are compared as sets (their order is not promised)",
-    "filter configurations containing the dominated-operations filter are used on positive-duration instances only (its zero-duration shortcut is not pinned by the property)",
+    "with the dominated-operations filter on instances with zero durations the available list is taken from the implementation (any non-empty ordered sub-list of the ready operations) and every other query is recomputed from it; pairs/edges sub-checks use pinned configurations only",
 ]
 BOUNDS = {
     "quick": "K3 complete: no filter = all ordered query pairs per state + all edges x 16 pre-queries + resets; 5 more filter configs = forward/reverse + edges; K4[seed%16::16] and probes: forward/reverse + pairs on memoised queries",
@@ -79,8 +79,6 @@ def run_case(case) -> Res:
     cfgs = [()]
     if mode != "basic":
         for f in FILTER_CFGS:
-            if DOM in f and not ref.positive:
-                continue
             cfgs.append(f)
     for filters in cfgs:
         explore_queries(res, spec, filters, mode if not filters else "edges-only", triples and not filters)
@@ -119,6 +117,16 @@ def explore_queries(res, spec, filters, mode, triples):
     def visit(hist, live, parent_obs, ref):
         d, inst = live.d, live.inst
         st = ref.state(hist)
+        if DOM in filters and not ref.positive:
+            # the filter's choice among zero-duration operations is not pinned:
+            # take the implementation's available list (must be a non-empty
+            # sub-list of the ready operations) and recompute everything else
+            av = [o.operation_id for o in d.available_operations()]
+            ready = st.ready()
+            if any(o not in ready for o in av) or len(set(av)) != len(av) or (ready and not av) or [o for o in ready if o in av] != av:
+                res.violation(check, "available-not-an-ordered-sublist-of-ready", sig=sig, spec=spec, filters=filters, history=hist, available=av, ready=ready)
+                return None
+            st.avail_override = av
         want = spec_all(st, filters)
         # 0 deviations: everything forward, then in reverse, same state
         got = ask_all(d, inst)
@@ -165,6 +173,9 @@ def explore_queries(res, spec, filters, mode, triples):
         if mode == "basic":
             return None
         # 1-2 deviations: ordered pairs on freshly rebuilt states
+        pinned = not (DOM in filters and not ref.positive)
+        if not pinned:
+            return None
         if first and mode in ("full", "std", "cached-pairs"):
             table = QUERIES if mode == "full" else ZERO_ARG
             wmap = dict(want)
